@@ -129,10 +129,19 @@ var rtTimerSeed uint32
 //go:linkname rtTimerSeq runtime.verifTimerSeq
 var rtTimerSeq uint32
 
-// SeedTimers makes the order in which timers of one simulated instant fire a function of the run's PRNG value.
+//go:linkname rtSelectState runtime.verifSelectState
+var rtSelectState uint64
+
+// SeedTimers makes the order in which timers of one simulated instant fire, and the choice a select makes among
+// several ready cases, functions of the run's PRNG value.
 func SeedTimers(seed uint64) {
 	rtTimerSeed = uint32((seed*0x9E3779B97F4A7C15 + 0x7F4A7C15) >> 32)
 	rtTimerSeq = 0
+	// (rule R12) the choice among several ready cases of a select, inside the bubble
+	rtSelectState = seed*0xD1342543DE82EF95 + 0x2545F4914F6CDD1D
+	if rtSelectState == 0 {
+		rtSelectState = 1
+	}
 }
 
 // SeedPoints arms the preemption points for one run: a switch is taken at a
